@@ -113,6 +113,9 @@ func genUDPCase(r *Rng, prop string) udpCaseSpec {
 		if op.AKind == 17 || op.AKind == 18 {
 			op.PLen = 0 // a payload would complete the truncated address into some other destination
 		}
+		if op.Kind == "honest" && !malformedKind(op.AKind) && targetKinds[op.AKind].atyp != 3 && (r.Chance(4) || (prop == "C14" && r.Chance(12))) {
+			op.Port0, op.Replies = true, nil // the send itself fails; the association must still be reclaimed
+		}
 		op.Key = fmt.Sprintf("%d/%d", op.C, op.S)
 		cs.Ops = append(cs.Ops, op)
 	}
@@ -248,6 +251,10 @@ func udpMonitors(ctx *Ctx, prop string, cs *udpCaseSpec, obs []udpOpObs, shutdow
 		if cs.Validate && !targetKinds[op.AKind].public {
 			shouldForward = false
 		}
+		sendFails := shouldForward && op.Port0
+		if op.Port0 {
+			shouldForward = false
+		}
 		if ob.Forwarded && !shouldForward {
 			sig := "C03/unauthenticated-or-invalid-datagram-forwarded"
 			if cs.Validate && valid && !targetKinds[op.AKind].public {
@@ -287,6 +294,10 @@ func udpMonitors(ctx *Ctx, prop string, cs *udpCaseSpec, obs []udpOpObs, shutdow
 					}
 				}
 			} else {
+				if a.port == -1 {
+					a.port = ob.SrcPort // its first datagram never left: the socket shows now
+					usedPorts[ob.SrcPort] = op.Client
+				}
 				if a.port != ob.SrcPort {
 					ctx.Monitor("C04/source-socket-changed", "datagrams of one live association left from different source ports", rep)
 				}
@@ -328,10 +339,18 @@ func udpMonitors(ctx *Ctx, prop string, cs *udpCaseSpec, obs []udpOpObs, shutdow
 			if ob.Unreported > 0 {
 				ctx.Monitor("C16/reply-without-ok-report", "a datagram reached the client without an OK AddPacketFromTarget report", rep)
 			}
+		} else if ob.NewKey != nil && sendFails {
+			// the send failed at the socket: the association exists and must be reclaimed like any other
+			live[op.Client] = &assoc{-1, op.C, op.S}
+			adds++
+			ctx.Count("association-with-failed-first-send")
+			if ob.Report == nil || ob.Report.Status != "ERR_WRITE" || ob.Report.B != 0 {
+				ctx.Monitor("C16/failed-send-report", fmt.Sprintf("a datagram whose send the kernel refuses must be reported ERR_WRITE with 0 payload bytes, got %+v", ob.Report), rep)
+			}
 		} else if ob.NewKey != nil {
 			ctx.Monitor("C04/association-without-forward", "an association was created by a datagram that was not forwarded", rep)
 		}
-		onAssoc := a != nil || ob.Forwarded
+		onAssoc := a != nil || ob.Forwarded || sendFails
 		if onAssoc != (ob.Report != nil) {
 			ctx.Monitor("C16/client-report-count", fmt.Sprintf("datagram on an association=%v, AddPacketFromClient called=%v", onAssoc, ob.Report != nil), rep)
 		}
